@@ -29,6 +29,7 @@ func init() {
 		"enccall":      opEncCall,
 		"enctoken":     opEncToken,
 		"dectoken":     opDecToken,
+		"decaddenc":    opDecAddEnc,
 		"encroles":     opEncRoles,
 		"decroles":     opDecRoles,
 		"encmeta":      opEncMeta,
@@ -419,6 +420,32 @@ func opDecToken(_ *World, a []string) string {
 		return "err"
 	}
 	return "ok " + fmtToken(t)
+}
+
+// opDecAddEnc: `decaddenc <bytes> <int>` - what the balance helpers do with a decoded entry: Unmarshal, add to the decoded
+// Value IN PLACE (esdtData.Value.Add(esdtData.Value, v)), Marshal again. -> ok <bytes> | err
+// A decoder that hands out shared numbers shows in the NEXT decode of an equal encoding.
+func opDecAddEnc(_ *World, a []string) string {
+	if len(a) != 2 {
+		return obsBadOp
+	}
+	b, ok := unhexField(a[0])
+	d, ok2 := parseBig(a[1])
+	if !ok || !ok2 {
+		return obsBadOp
+	}
+	t := &esdt.ESDigitalToken{}
+	if err := t.Unmarshal(b); err != nil {
+		return "err"
+	}
+	if t.Value != nil {
+		t.Value.Add(t.Value, d)
+	}
+	out, err := t.Marshal()
+	if err != nil {
+		return "err"
+	}
+	return "ok " + hxTok(out)
 }
 
 func opEncRoles(_ *World, a []string) string {
